@@ -14,6 +14,7 @@ Every other reference run is re-tuned live through its documented attributes aft
 from an earlier file replays the re-tuning at the same point), the dictionary loaded from a file is used a second
 time after the first rebuilt simulation has run, and a resumed run must perform exactly the requested steps.
 One workload holds composites nested with the constructor (a displacement composite inside a plain one).
+One grand-canonical workload leaves max_cycles at the driver's default while the atom count changes.
 """
 from __future__ import annotations
 
@@ -66,6 +67,8 @@ def workloads(tier):
         # composites nested on purpose with the constructor: the inner displacement composite keeps its own logic (no
         # particle twice) inside the plain one, and so it must after a restart
         "canonical-nested-composites": {"driver": "Canonical", "T": 900.0, "cycles": 2, "atoms": gas, "calc": {"kind": "soft"}, "table": [{"name": "nest", "move": {"t": "nest", "parts": [{"t": "*", "part": D("Box"), "n": 2}, D("Sphere")]}, "criteria": "canonical"}, {"name": "nn", "move": {"t": "nest", "parts": [{"t": "nest", "parts": [{"t": "+", "parts": [D(), D("Box")]}, D()]}, D("Sphere")]}, "criteria": "random:0.5"}, {"name": "d", "move": D()}]},
+        # max_cycles left at the driver's default (one cycle per atom present at construction) while the atom count changes
+        "grand-default-cycles": {"driver": "GrandCanonical", "T": 2000.0, "mu": 0.0, "cycles": "default", "species": 1, "atoms": {"kind": "gas", "n": 3, "edge": 7.0, "seed": 11}, "calc": {"kind": "soft"}, "table": [{"name": "x", "move": {"t": "E", "bias": 0.6}, "criteria": "random:0.8"}, {"name": "d", "move": D()}]},
         "montecarlo-bare": {"driver": "MonteCarlo", "cycles": 2, "atoms": gas, "calc": {"kind": "soft"}, "table": [{"name": "p", "move": {"t": "P"}, "criteria": "random:0.5"}]},
         "forcebias": {"driver": "ForceBias", "T": 300.0, "delta": 0.15, "atoms": {"kind": "mixed", "n": 5, "edge": 8.0, "pbc": False, "seed": 6}, "calc": {"kind": "harmonic", "k": 1.0}},
         "adaptive-forcebias": {"driver": "AdaptiveForceBias", "T": 300.0, "delta": 0.2, "atoms": {"kind": "mixed", "n": 5, "edge": 8.0, "pbc": False, "seed": 7}, "calc": {"kind": "committee"}},
